@@ -34,7 +34,7 @@ Valid(b) ==
   /\ (CatchOutside(b.place) => b.exit \in {"throw", "throw_midexpr"} /\ b.encl \in {"none", "try_finally", "forin", "switch", "in_catch", "finally_after_throw"})
 \* quick tier: every inner, exit, enclosure and place occurs, but not the full product
 QuickPick(b) ==
-  \/ b.encl = "none" /\ b.place \in {"inline", "func_operand"}
+  \/ b.encl = "none" /\ b.place \in {"inline", "func_operand", "func_array", "func_arg"}
   \/ CatchOutside(b.place) /\ b.inner \in {"forin", "while", "none"}
   \/ b.place = "inline" /\ b.inner \in {"forin", "switch", "while"}
   \/ b.inner = "forin" /\ b.exit \in {"break", "return", "throw_midexpr"} 
